@@ -965,3 +965,51 @@ Proof.
   - apply Hn, denote_blocks_pk_inv.
   - intros x. rewrite !elem_of_list_In. apply H2.
 Qed.
+
+(* ------------------------------------------------------------------------------------------------ *)
+(* 10. order-preserving splits: the key ORDER is the joined form's ("as if declared in one block")   *)
+(* `orefines` never exchanges two declarations of the same cell: a type may be cut in two consecutive shares
+   (the later share comes later), a bare re-opening header may appear before a declaration of its app, and two
+   neighbouring declarations of DIFFERENT cells may change places. *)
+Inductive orefines : list xatom -> list xatom -> Prop :=
+| or_refl l : orefines l l
+| or_split l1 l2 an t n a fs1 fs2 : disjoint_names (names fs1) (names fs2) ->
+    orefines (l1 ++ XType an t n a (fs1 ++ fs2) :: l2) (l1 ++ XType an t n a fs1 :: XType an t n [] fs2 :: l2)
+| or_reopen l1 l2 an : (exists x, In x l2 /\ x_app x = an) -> orefines (l1 ++ l2) (l1 ++ XHead an None [] :: l2)
+| or_swap l1 l2 x y : x_cell x <> x_cell y -> orefines (l1 ++ x :: y :: l2) (l1 ++ y :: x :: l2)
+| or_trans l1 l2 l3 : orefines l1 l2 -> orefines l2 l3 -> orefines l1 l3.
+
+Theorem orefines_sound l l' : orefines l l' ->
+  forall s, fold_left (xstep PkUnion) l s = fold_left (xstep PkUnion) l' s.
+Proof.
+  induction 1 as [l|l1 l2 an t n a fs1 fs2 Hd|l1 l2 an Hx|l1 l2 x y Hc|l1 l2 l3 _ IH1 _ IH2]; intros s.
+  - reflexivity.
+  - rewrite !fold_left_app. cbn [fold_left]. f_equal.
+    unfold xstep; cbn [x_app x_op]. rewrite apply_seq_type.
+    generalize (fold_left (fun s x => apply_op (x_app x) (x_op PkUnion x) s) l1 s). intros [m p].
+    unfold apply_op; cbn [fst snd]. rewrite (type_g_fusion t a fs1 fs2 Hd). reflexivity.
+  - rewrite !fold_left_app. symmetry. apply touch_redundant, Hx.
+  - rewrite !fold_left_app. cbn [fold_left]. f_equal. unfold xstep.
+    apply apply_comm_ne. rewrite !op_cell_x. unfold x_cell in Hc. congruence.
+  - rewrite IH1. apply IH2.
+Qed.
+
+(* the blocks of the files, in the order the parser walks them, against the joined form: EXACT equality,
+   key lists included *)
+Theorem merge_pk_order_preserved files root joined :
+  orefines (bcontent joined) (bcontent (blocks_in_order files (flatten_order files root))) ->
+  denote_files PkUnion files root = denote_blocks PkUnion joined.
+Proof.
+  intros H. unfold denote_files. rewrite !denote_blocks_content. symmetry. apply orefines_sound, H.
+Qed.
+
+Lemma wit_ordered :
+  orefines (bcontent wit_joined) (bcontent (blocks_in_order wit_files (flatten_order wit_files 20%positive))).
+Proof.
+  vm_compute flatten_order. cbn.
+  eapply or_trans; [apply (or_split [XHead wit_app None []] [] wit_app true 6%positive [] [wit_fa] [wit_fb; wit_fc])|].
+  - intros x [<-|[]] [H|[H|[]]]; discriminate.
+  - apply (or_reopen [XHead wit_app None []; XType wit_app true 6%positive [] [wit_fa]]
+             [XType wit_app true 6%positive [] [wit_fb; wit_fc]] wit_app).
+    eexists; split; [left; reflexivity|reflexivity].
+Qed.
